@@ -12,6 +12,10 @@ def build(v):
             return bytes(v['__bytes__'])
         if '__tuple__' in v:
             return tuple(build(x) for x in v['__tuple__'])
+        if '__set__' in v:
+            return set(build(x) for x in v['__set__'])
+        if '__dict__' in v:
+            return dict((build(k), build(x)) for k, x in v['__dict__'])
         if '__object__' in v:
             mod = importlib.import_module(v['module'][:-3].replace('/', '.').replace('.__init__', ''))
             cls = getattr(mod, v['__object__'])
